@@ -1,18 +1,58 @@
 (* C08SplitCheckP.v — the model's observation meets the C08 oracle (Model/C08SplitCheck.v). *)
 From Coq Require Import ZArith List Bool Lia ZifyBool PeanoNat.
 From FT Require Import Model.Base Model.Obs Model.C08Split Model.C08SplitCheck
-                       Proofs.ObsP Proofs.C08SplitP.
+                       Proofs.ObsP Proofs.C08SplitP Proofs.C08UniformP Proofs.C08PositionP.
 Import ListNotations.
 Open Scope Z_scope.
 
 (* kinds for which "model = reference" is proved for every well-formed fiber *)
-Definition proved_kind (k : skind) : bool :=
-  match k with KNonUniform _ => true | _ => false end.
+Definition proved_kind (k : skind) : bool := true.
 
 Lemma wf_fiber_sorted shape active es :
   wf_fiber shape active es = true -> ssorted (map fst es) = true.
 Proof.
   unfold wf_fiber. intros H. repeat (apply andb_true_iff in H; destruct H as [H ?]). exact H.
+Qed.
+
+Lemma est_shape_pos es :
+  es <> [] -> forallb (fun x : Z * tree => 0 <=? fst x) es = true -> 0 < est_shape es.
+Proof.
+  intros Hne Hnn. unfold est_shape. destruct (rev es) as [|[c t] r] eqn:E.
+  - exfalso. apply Hne. rewrite <- (rev_involutive es), E. reflexivity.
+  - rewrite forallb_forall in Hnn. specialize (Hnn (c, t)). cbn [fst] in Hnn.
+    assert (In (c, t) es) as Hin by (apply in_rev; rewrite E; left; reflexivity).
+    specialize (Hnn Hin). lia.
+Qed.
+
+(* a well-formed non-empty fiber has a non-empty active range and a positive shape *)
+Lemma wf_fiber_active shape active es :
+  wf_fiber shape active es = true -> es <> [] ->
+  fst (get_active shape active es) < snd (get_active shape active es) /\
+  0 < get_shape shape es.
+Proof.
+  unfold wf_fiber. intros H Hne.
+  apply andb_true_iff in H. destruct H as [H Hact].
+  apply andb_true_iff in H. destruct H as [H Hsh].
+  apply andb_true_iff in H. destruct H as [_ Hnn].
+  pose proof (est_shape_pos es Hne Hnn) as Hest.
+  unfold get_active, get_shape. split.
+  - destruct active as [[x y]|]; [cbn [fst snd] in *; lia|].
+    cbn [fst snd]. destruct shape as [s|]; [|exact Hest].
+    destruct (s =? 0) eqn:E; lia.
+  - destruct shape as [s|]; [lia|exact Hest].
+Qed.
+
+Lemma equal_model_ref step pre post rel d a es :
+  0 < step -> 0 <= pre -> 0 <= post -> ssorted (map fst es) = true ->
+  split_nonuniform_iter (eq_bounds step (fst a) 0 (iter_range d (fst a) (snd a) es)) pre post rel d a es
+  = ref_parts pre post rel a (present d es)
+      (list_bounds (chunk_bounds (fst a)
+         (chunks (length (active_elems d a es)) (fun _ => Z.to_nat step) O (active_elems d a es)))).
+Proof.
+  intros Hstep Hpre Hpost Hs.
+  rewrite (proj1 (position_is_ref pre post rel d a es Hpre Hpost Hs) step).
+  destruct a as [a0 a1]. cbn [fst snd].
+  rewrite (iter_range_active d a0 a1 es Hs), (eq_bounds_chunks step a0 Hstep). reflexivity.
 Qed.
 
 Lemma fiber_model_ref sp d shape active es :
@@ -23,11 +63,139 @@ Proof.
   intros Hp Hk Hf. pose proof (wf_fiber_sorted _ _ _ Hf) as Hs.
   unfold split_fiber, split_parts, ref_fiber, halos, relc, ref_bounds.
   unfold wf_params in Hp.
-  destruct (sp_kind sp) as [step|splits|step|sizes|n|n]; try discriminate.
   apply andb_true_iff in Hp. destruct Hp as [Hp Hsp].
-  rewrite (nonuniform_is_ref splits (sp_pre sp) (sp_post sp) (sp_rel sp) d
-             (get_active shape active es) es Hsp ltac:(lia) ltac:(lia) Hs).
-  reflexivity.
+  destruct (sp_kind sp) as [step|splits|step|sizes|n|n].
+  - rewrite (uniform_is_ref step (sp_pre sp) (sp_post sp) (sp_rel sp) d
+               (get_active shape active es) es ltac:(lia) ltac:(lia) ltac:(lia)
+               (fun Hne => proj1 (wf_fiber_active shape active es Hf Hne)) Hs).
+    reflexivity.
+  - rewrite (nonuniform_is_ref splits (sp_pre sp) (sp_post sp) (sp_rel sp) d
+               (get_active shape active es) es Hsp ltac:(lia) ltac:(lia) Hs).
+    reflexivity.
+  - rewrite (equal_model_ref step (sp_pre sp) (sp_post sp) (sp_rel sp) d
+               (get_active shape active es) es ltac:(lia) ltac:(lia) ltac:(lia) Hs).
+    reflexivity.
+  - apply andb_true_iff in Hsp. destruct Hsp as [Hpos Hlen].
+    rewrite (proj2 (position_is_ref (sp_pre sp) (sp_post sp) (sp_rel sp) d
+                      (get_active shape active es) es ltac:(lia) ltac:(lia) Hs) sizes).
+    destruct (get_active shape active es) as [a0 a1]. cbn [fst snd].
+    rewrite (iter_range_active d a0 a1 es Hs).
+    rewrite (uneq_bounds_chunks sizes a0 (length (active_elems d (a0, a1) es)) Hpos
+               (active_elems d (a0, a1) es)); [reflexivity| |lia].
+    intros E. rewrite E in Hlen. discriminate.
+  - destruct es as [|e0 es'].
+    + cbn [split_uniform present filter fst snd]. rewrite ref_parts_nil. reflexivity.
+    + destruct (wf_fiber_active shape active (e0 :: es') Hf ltac:(discriminate)) as [Hact Hshp].
+      assert (0 < (get_shape shape (e0 :: es') + n - 1) / n) as Hstep.
+      { apply Z.div_str_pos. lia. }
+      rewrite (uniform_is_ref _ 0 0 false d (get_active shape active (e0 :: es')) (e0 :: es')
+                 Hstep ltac:(lia) ltac:(lia) (fun _ => Hact) Hs).
+      reflexivity.
+  - destruct es as [|e0 es'].
+    + cbn [split_nonuniform_iter present filter]. rewrite ref_parts_nil. reflexivity.
+    + assert (0 < (Z.of_nat (length (e0 :: es')) + n - 1) / n) as Hstep.
+      { apply Z.div_str_pos. cbn [length]. lia. }
+      rewrite (equal_model_ref _ 0 0 false d (get_active shape active (e0 :: es')) (e0 :: es')
+                 Hstep ltac:(lia) ltac:(lia) Hs).
+      reflexivity.
+Qed.
+
+(* ------------------------------------------------------------------ re-splits *)
+Definition good_bounds (bs : list (Z * option Z)) : Prop :=
+  forall s e, In (s, e) bs -> match e with Some z => s < z | None => True end.
+
+Lemma list_bounds_good l : ssorted l = true -> good_bounds (list_bounds l).
+Proof.
+  induction l as [|s r IH]; intros Hs s' e' Hin; [destruct Hin|].
+  cbn [list_bounds In] in Hin. destruct Hin as [Hin|Hin].
+  - injection Hin as <- <-. destruct r as [|e r']; [exact I|].
+    apply (ssorted_cons_lt _ _ Hs). left. reflexivity.
+  - apply (IH (ssorted_cons _ _ Hs) s' e' Hin).
+Qed.
+
+Lemma uni_bounds_good step a0 a1 : 0 < step -> good_bounds (uni_bounds step a0 a1).
+Proof.
+  intros Hs s e Hin. apply (uni_bounds_in step a0 a1 s e Hs) in Hin.
+  destruct Hin as [k [_ [-> _]]]. lia.
+Qed.
+
+Lemma ref_bounds_good sp d shape active es :
+  wf_params sp = true -> wf_fiber shape active es = true -> es <> [] ->
+  good_bounds (ref_bounds (sp_kind sp) d shape (get_active shape active es) es).
+Proof.
+  intros Hp Hf Hne. pose proof (wf_fiber_sorted _ _ _ Hf) as Hs.
+  destruct (wf_fiber_active shape active es Hf Hne) as [Hact Hshp].
+  unfold wf_params in Hp. apply andb_true_iff in Hp. destruct Hp as [Hp Hsp].
+  unfold ref_bounds. destruct (get_active shape active es) as [a0 a1] eqn:Ea. cbn [fst snd] in *.
+  destruct (sp_kind sp) as [step|splits|step|sizes|n|n].
+  - apply uni_bounds_good. lia.
+  - apply list_bounds_good. exact Hsp.
+  - apply list_bounds_good.
+    rewrite <- (eq_bounds_chunks step a0 ltac:(lia)), <- (iter_range_active d a0 a1 es Hs).
+    apply eq_bounds_sorted. exact Hs.
+  - apply andb_true_iff in Hsp. destruct Hsp as [Hpos Hlen].
+    apply list_bounds_good.
+    assert (sizes <> []) as Hsz by (intros E; rewrite E in Hlen; discriminate).
+    pose proof (uneq_bounds_chunks sizes a0 (length (active_elems d (a0, a1) es)) Hpos
+                  (active_elems d (a0, a1) es) Hsz ltac:(lia)) as E.
+    unfold usz in E. rewrite <- E.
+    rewrite <- (iter_range_active d a0 a1 es Hs). apply uneq_bounds_sorted. exact Hs.
+  - apply uni_bounds_good. apply Z.div_str_pos. lia.
+  - apply list_bounds_good.
+    assert (0 < (Z.of_nat (length es) + n - 1) / n) as Hstep.
+    { apply Z.div_str_pos. destruct es; [congruence|cbn [length]; lia]. }
+    rewrite <- (eq_bounds_chunks _ a0 Hstep), <- (iter_range_active d a0 a1 es Hs).
+    apply eq_bounds_sorted. exact Hs.
+Qed.
+
+(* every partition of the reference map (absolute coordinates) is again a well-formed fiber:
+   ascending non-negative coordinates, the operand's shape, a non-empty active range *)
+Lemma ref_parts_wf pre post d shape active es bs p :
+  wf_fiber shape active es = true -> good_bounds bs ->
+  In p (ref_parts pre post false (get_active shape active es) (present d es) bs) ->
+  wf_fiber shape (Some (snd p)) (snd (fst p)) = true.
+Proof.
+  intros Hf Hg Hin. pose proof (wf_fiber_sorted _ _ _ Hf) as Hs.
+  destruct es as [|e0 es'].
+  { cbn [present filter] in Hin. rewrite ref_parts_nil in Hin. destruct Hin. }
+  destruct (wf_fiber_active shape active (e0 :: es') Hf ltac:(discriminate)) as [Hact _].
+  set (es := e0 :: es') in *.
+  apply ref_parts_in in Hin. destruct Hin as [s [e [Hb [Hne ->]]]].
+  cbn [fst snd rel_coords].
+  unfold wf_fiber in *.
+  apply andb_true_iff in Hf. destruct Hf as [Hf _].
+  apply andb_true_iff in Hf. destruct Hf as [Hf Hsh].
+  apply andb_true_iff in Hf. destruct Hf as [_ Hnn].
+  rewrite !andb_true_iff. split; [split; [split|]|].
+  - apply ssorted_filter_fst. apply ssorted_filter_fst. exact Hs.
+  - rewrite forallb_forall in *. intros x Hx. apply Hnn.
+    apply filter_In in Hx. destruct Hx as [Hx _]. apply filter_In in Hx. apply Hx.
+  - exact Hsh.
+  - cbn [fst snd].
+    destruct (filter (member pre post (fst (get_active shape active es)) (snd (get_active shape active es)) s e)
+                     (present d es)) as [|x l] eqn:E; [congruence|].
+    assert (member pre post (fst (get_active shape active es)) (snd (get_active shape active es)) s e x = true) as Hm.
+    { assert (In x (x :: l)) as Hx by (left; reflexivity). rewrite <- E in Hx.
+      apply filter_In in Hx. apply Hx. }
+    apply member_iff in Hm. specialize (Hg s e Hb).
+    unfold ext_gt, ext_min in *. destruct e; lia.
+Qed.
+
+Lemma resplit_model_ref sp sp2 d shape active es p :
+  wf_params sp = true -> wf_params sp2 = true -> sp_rel sp = false ->
+  wf_fiber shape active es = true ->
+  In p (match ref_fiber sp d shape active es with Some r => sr_parts r | None => [] end) ->
+  split_fiber sp2 d shape (Some (snd p)) (snd (fst p))
+  = ref_fiber sp2 d shape (Some (snd p)) (snd (fst p)).
+Proof.
+  intros Hp Hp2 Hrel Hf Hin. apply fiber_model_ref; [exact Hp2|reflexivity|].
+  unfold ref_fiber in Hin. cbn [sr_parts] in Hin.
+  assert (relc sp = false) as Hr by (unfold relc; destruct (sp_kind sp); auto).
+  rewrite Hr in Hin.
+  destruct es as [|e0 es'].
+  { cbn [present filter] in Hin. rewrite ref_parts_nil in Hin. destruct Hin. }
+  eapply ref_parts_wf; [exact Hf| |exact Hin].
+  apply ref_bounds_good; [exact Hp|exact Hf|discriminate].
 Qed.
 
 Section Lift.
@@ -35,13 +203,25 @@ Section Lift.
   Hypothesis Hfib : forall shape active es,
     wf_fiber shape active es = true ->
     split_fiber (k_sp c) (k_d c) shape active es = ref_fiber (k_sp c) (k_d c) shape active es.
-  Hypothesis Hnore : k_resplit c = None.
+  Hypothesis Hre : forall sp2 shape active es p, k_resplit c = Some sp2 ->
+    wf_fiber shape active es = true ->
+    In p (match ref_fiber (k_sp c) (k_d c) shape active es with Some r => sr_parts r | None => [] end) ->
+    split_fiber sp2 (k_d c) shape (Some (snd p)) (snd (fst p))
+    = ref_fiber sp2 (k_d c) shape (Some (snd p)) (snd (fst p)).
 
   Lemma obs_fiber_eq lev es :
     wf_fiber (nth lev (k_shapes c) None) (match lev with O => k_active c | _ => None end) es = true ->
     obs_fiber split_fiber c lev es = obs_fiber ref_fiber c lev es.
   Proof.
-    intros H. unfold obs_fiber. rewrite (Hfib _ _ _ H), Hnore. reflexivity.
+    intros H. unfold obs_fiber. rewrite (Hfib _ _ _ H).
+    destruct (k_resplit c) as [sp2|] eqn:E; [|reflexivity].
+    destruct (ref_fiber (k_sp c) (k_d c) (nth lev (k_shapes c) None)
+                        (match lev with O => k_active c | _ => None end) es) as [r|] eqn:Er;
+      [|reflexivity].
+    match goal with |- match all_some ?a with _ => _ end = match all_some ?b with _ => _ end =>
+      assert (a = b) as ->; [|reflexivity] end.
+    apply map_ext_in. intros p Hp.
+    apply (Hre sp2 _ _ es p eq_refl H). rewrite Er. exact Hp.
   Qed.
 
   Lemma obs_depth_eq t : forall k lev,
@@ -64,14 +244,18 @@ Section Lift.
   Proof. intros H. unfold obs_case. rewrite (obs_depth_eq _ _ _ H). reflexivity. Qed.
 End Lift.
 
-Lemma c08_model_holds_partial c :
-  c08_wf c = true -> proved_kind (sp_kind (k_sp c)) = true -> k_resplit c = None ->
-  holds c08_checker c (model c08_checker c) = true.
+Lemma c08_model_holds c :
+  c08_wf c = true -> holds c08_checker c (model c08_checker c) = true.
 Proof.
-  intros Hwf Hk Hre. cbn [holds model c08_checker]. unfold c08_holds. rewrite Hwf.
-  unfold c08_wf in Hwf. rewrite Hre in Hwf. rewrite andb_true_r in Hwf.
+  intros Hwf. cbn [holds model c08_checker]. unfold c08_holds. rewrite Hwf.
+  unfold c08_wf in Hwf.
+  apply andb_true_iff in Hwf. destruct Hwf as [Hwf Hre].
   apply andb_true_iff in Hwf. destruct Hwf as [Hp Hd].
   unfold c08_model, c08_spec.
-  rewrite (obs_case_eq c); [apply V_eqb_refl| |exact Hre|exact Hd].
-  intros shape active es Hf. apply fiber_model_ref; assumption.
+  rewrite (obs_case_eq c); [apply V_eqb_refl| | |exact Hd].
+  - intros shape active es Hf. apply fiber_model_ref; [exact Hp|reflexivity|exact Hf].
+  - intros sp2 shape active es p E Hf Hin. rewrite E in Hre.
+    apply andb_true_iff in Hre. destruct Hre as [Hp2 Hrel].
+    apply (resplit_model_ref (k_sp c) sp2 (k_d c) shape active es p Hp Hp2); [|exact Hf|exact Hin].
+    destruct (sp_rel (k_sp c)); [discriminate|reflexivity].
 Qed.
